@@ -70,7 +70,7 @@ def build(fedjax, name, case, copt=None, sopt=None, loss=None, **kw):
   raise ValueError(name)
 
 
-def run_rounds(fedjax, name, case, order='listed', keys_seed=0, domain_of=None, backend=None, **kw):
+def run_rounds(fedjax, name, case, order='listed', keys_seed=0, domain_of=None, backend=None, typed_keys=False, **kw):
   """Runs inst.rounds rounds; returns dict(rounds=[params...], states=[state...], diag=[...], error)."""
   import jax  # pylint: disable=g-import-not-at-top
   inst = case['inst']
@@ -93,7 +93,8 @@ def run_rounds(fedjax, name, case, order='listed', keys_seed=0, domain_of=None, 
       co = list(cohort)
       if order == 'reversed':
         co = co[::-1]
-      keys = jax.random.split(jax.random.PRNGKey(keys_seed + r), len(dss))
+      # client keys are old-style uint32 arrays or new-style typed keys (jax.random.key): the same draws either way
+      keys = jax.random.split(jax.random.key(keys_seed + r) if typed_keys else jax.random.PRNGKey(keys_seed + r), len(dss))
       # case['id_alias'] = {spec client: spec client whose ID it goes by}: one real client whose data changed between rounds
       alias = case.get('id_alias') or {}
       clients = [(ids[alias.get(c, c) - 1], dss[c - 1], keys[c - 1]) for c in co]
